@@ -22,6 +22,7 @@ type cfgSetting struct {
 	vals    []string // two distinct test values
 	bad     string   // a malformed value ("" = none)
 	boolean bool
+	blank   bool // an empty value is invalid for this setting (every channel must refuse it)
 }
 
 // runConfig: the real binary under the channel matrix.  One setting per start; its value arrives through
@@ -58,14 +59,18 @@ func runConfig(env *Env) error {
 			{flag: "root", vals: []string{rootA, rootB}, bad: filepath.Join(base, "no-such-dir")},
 			{flag: "listen-addr", vals: []string{fmt.Sprintf("127.0.0.1:%d", p2), fmt.Sprintf("127.0.0.1:%d", p3)}},
 			{flag: "allow-write", vals: []string{"true", "false"}, boolean: true},
-			{flag: "max-clients", vals: []string{"1", "2"}, bad: "abc"},
-			{flag: "client-whitelist", vals: []string{"127.0.0.1", "127.0.0.2"}, bad: "999.1.1.1"},
-			{flag: "read-timeout", vals: []string{"400ms", "5s"}, bad: "fast"},
+			{flag: "max-clients", vals: []string{"1", "2"}, bad: "abc", blank: true},
+			{flag: "client-whitelist", vals: []string{"127.0.0.1", "127.0.0.2"}, bad: "999.1.1.1", blank: true},
+			{flag: "read-timeout", vals: []string{"400ms", "5s"}, bad: "fast", blank: true},
 			{flag: "debug", vals: []string{"true", "false"}, boolean: true},
 			{flag: "json-log", vals: []string{"true", "false"}, boolean: true},
 			{flag: "debug-server-listen-addr", vals: []string{fmt.Sprintf("127.0.0.1:%d", p2), fmt.Sprintf("127.0.0.1:%d", p3)}},
 		}
 		s := settings[i%len(settings)]
+		sweep := i < 18 // the first 18 cases: an empty value for each of the three settings through each of the six channels
+		if sweep {
+			s = settings[3+i%3]
+		}
 		s.env, s.def = envName[s.flag], defOf[s.flag]
 		if s.flag == "root" { // spellings of the root: absolute, trailing slash, relative to the working directory
 			switch env.Rnd.Intn(3) {
@@ -85,8 +90,19 @@ func runConfig(env *Env) error {
 		if s.bad == "" && mode == "malformed" {
 			mode = "pair"
 		}
+		if sweep {
+			mode = "malformed"
+		}
+		badValue := s.bad
+		if mode == "malformed" && s.blank && (sweep || env.Rnd.Intn(2) == 0) {
+			badValue = "" // a key that is present but empty
+			env.Count("malformed", "blank")
+		}
 		assign := map[string]string{}
 		c1 := channels[env.Rnd.Intn(len(channels))]
+		if sweep {
+			c1 = channels[(i/3)%len(channels)]
+		}
 		switch mode {
 		case "single":
 			assign[c1] = s.vals[0]
@@ -97,7 +113,7 @@ func runConfig(env *Env) error {
 			}
 			assign[c1], assign[c2] = s.vals[0], s.vals[1]
 		case "malformed":
-			assign[c1] = s.bad
+			assign[c1] = badValue
 		}
 		// set the scene
 		cwd := filepath.Join(base, fmt.Sprintf("cwd%d", i))
@@ -191,7 +207,7 @@ func runConfig(env *Env) error {
 		if s.def != "" {
 			def = hx([]byte(s.def))
 		}
-		fields := []string{get("flag"), get("userini"), get("cwdini"), explicit, get("env"), def, hx([]byte(s.bad))}
+		fields := []string{get("flag"), get("userini"), get("cwdini"), explicit, get("env"), def, hx([]byte(badValue))}
 		// observed value in the model's terms
 		obs := observed
 		switch observed {
@@ -215,7 +231,7 @@ func runConfig(env *Env) error {
 		env.Case(id, "CONFIG", fields, obs, true)
 		// direct oracle: the documented precedence (flag first) and fail-closed
 		if mode == "malformed" && observed != "ERR" {
-			env.OracleFail(id, fmt.Sprintf("[C19-failclosed] %s=%q via %s: start-up did not stop (observed %s, exited=%v)", s.flag, s.bad, c1, observed, exited))
+			env.OracleFail(id, fmt.Sprintf("[C19-failclosed] %s=%q via %s: start-up did not stop (observed %s, exited=%v)", s.flag, badValue, c1, observed, exited))
 		}
 		if v, ok := assign["flag"]; ok && mode != "malformed" && observed != v {
 			env.OracleFail(id, fmt.Sprintf("[C19-flagwins] %s: flag says %q, channels %v, effective %q", s.flag, v, assign, observed))
